@@ -9,7 +9,7 @@ PROPS = "Props/C37.v"
 # Which variant of the model the working tree is compared with: three bits fix_text, fix_eof, fix_ice.
 # "000" = the pinned code as it is; "111" = after the proposed repair (see Model/ReportCodec.v).
 # Flip the default to "111" when the repair is committed to /repo.
-MODEL = os.environ.get("VERIF_C37_MODEL", "000")
+MODEL = os.environ.get("VERIF_C37_MODEL", "111")
 assert len(MODEL) == 3 and set(MODEL) <= {"0", "1"}, "VERIF_C37_MODEL must be three bits"
 FIX_TEXT, FIX_EOF, FIX_ICE = (c == "1" for c in MODEL)
 
